@@ -11,52 +11,69 @@ the absence of lost wake-ups, checked on the extracted skeleton itself.
 -/
 namespace Iora.BQ
 
-abbrev Skel := List (String × List (String × String × String))
+abbrev Ev := String × String × String × String
+abbrev Skel := List (String × List Ev)
 
-def putSkel (w : String) : List (String × String × String) :=
-  [("lock", "_mutex", ""), (w, "_condNotFull", "_mutex"), ("read", "_queue", "_mutex"), ("read", "_closed", "_mutex"),
-   ("read", "_closed", "_mutex"), ("push", "_queue", "_mutex"), ("unlock", "_mutex", "_mutex"), ("notify_one", "_condNotEmpty", "")]
+/-- the wait predicate of a put: `_queue.size() < _maxSize || _closed`, evaluated inside the lambda -/
+def putPred : List Ev :=
+  [("size", "_queue", "_mutex", "lambda"), ("read", "_maxSize", "_mutex", "lambda"), ("read", "_closed", "_mutex", "lambda")]
 
-def tryPutSkel : List (String × String × String) :=
-  [("lock", "_mutex", ""), ("read", "_closed", "_mutex"), ("read", "_queue", "_mutex"), ("push", "_queue", "_mutex"),
-   ("unlock", "_mutex", "_mutex"), ("notify_one", "_condNotEmpty", "")]
+def putSkel (w : String) : List Ev :=
+  [("lock", "_mutex", "", ""), (w, "_condNotFull", "_mutex", "")] ++ putPred ++
+  [("read", "_closed", "_mutex", "if-cond"), ("push", "_queue", "_mutex", ""), ("unlock", "_mutex", "_mutex", ""),
+   ("notify_one", "_condNotEmpty", "", "")]
 
-def takeSkel (w : String) : List (String × String × String) :=
-  [("lock", "_mutex", ""), (w, "_condNotEmpty", "_mutex"), ("read", "_queue", "_mutex"), ("read", "_closed", "_mutex"),
-   ("read", "_queue", "_mutex"), ("read", "_queue", "_mutex"), ("pop", "_queue", "_mutex"), ("unlock", "_mutex", "_mutex"),
-   ("notify_one", "_condNotFull", "")]
+def tryPutSkel : List Ev :=
+  [("lock", "_mutex", "", ""), ("read", "_closed", "_mutex", "if-cond"), ("size", "_queue", "_mutex", "if-cond"),
+   ("read", "_maxSize", "_mutex", "if-cond"), ("push", "_queue", "_mutex", ""),
+   ("unlock", "_mutex", "_mutex", ""), ("notify_one", "_condNotEmpty", "", "")]
 
-def lockedRead : List (String × String × String) :=
-  [("lock", "_mutex", ""), ("read", "_queue", "_mutex"), ("unlock", "_mutex", "_mutex")]
+/-- after the early `return false` on an empty queue: move the front out, pop it, unlock, ONE UNCONDITIONAL notify_one -/
+def takeTail : List Ev :=
+  [("empty", "_queue", "_mutex", "if-cond"), ("front", "_queue", "_mutex", ""), ("pop", "_queue", "_mutex", ""),
+   ("unlock", "_mutex", "_mutex", ""), ("notify_one", "_condNotFull", "", "")]
 
-/-- the skeleton the monitor model mirrors (`queue`, `tryQueue`×4, `dequeue`×2, `tryDequeue`, `close` as repaired, queries, destructor) -/
+def takeSkel (w : String) : List Ev :=
+  [("lock", "_mutex", "", ""), (w, "_condNotEmpty", "_mutex", ""), ("empty", "_queue", "_mutex", "lambda"),
+   ("read", "_closed", "_mutex", "lambda")] ++ takeTail
+
+def lockedRead (what : List Ev) : List Ev :=
+  [("lock", "_mutex", "", "")] ++ what ++ [("unlock", "_mutex", "_mutex", "")]
+
+/-- the skeleton the monitor model mirrors (`queue`, `tryQueue`×4, `dequeue`×2, `tryDequeue`, `close` as repaired, queries,
+destructor).  The fourth component is the enclosing control construct: every effect (push, pop, unlock, notify) is at function
+level - unconditional once the early returns are passed -, the predicates read `_queue`/`_maxSize`/`_closed` inside the wait
+lambda, the guards of the early returns are `if` conditions. -/
 def expected : Skel :=
   [("queue#0", putSkel "wait"), ("queue#1", putSkel "wait"),
    ("tryQueue#0", putSkel "wait_for"), ("tryQueue#1", putSkel "wait_for"),
    ("tryQueue#2", tryPutSkel), ("tryQueue#3", tryPutSkel),
    ("dequeue#0", takeSkel "wait"), ("dequeue#1", takeSkel "wait_for"),
-   ("tryDequeue#0", [("lock", "_mutex", ""), ("read", "_queue", "_mutex"), ("read", "_queue", "_mutex"), ("pop", "_queue", "_mutex"),
-                     ("unlock", "_mutex", "_mutex"), ("notify_one", "_condNotFull", "")]),
-   ("close#0", [("lock", "_mutex", ""), ("write", "_closed", "_mutex"), ("unlock", "_mutex", "_mutex"),
-                ("notify_all", "_condNotEmpty", ""), ("notify_all", "_condNotFull", "")]),
-   ("isClosed#0", [("read", "_closed", "")]),
-   ("size#0", lockedRead), ("empty#0", lockedRead), ("full#0", lockedRead),
-   ("capacity#0", []),
-   ("~BlockingQueue#0", [("call", "close", "")])]
+   ("tryDequeue#0", [("lock", "_mutex", "", "")] ++ takeTail),
+   ("close#0", [("lock", "_mutex", "", ""), ("write", "_closed", "_mutex", "if-cond"), ("unlock", "_mutex", "_mutex", ""),
+                ("notify_all", "_condNotEmpty", "", ""), ("notify_all", "_condNotFull", "", "")]),
+   ("isClosed#0", [("read", "_closed", "", "")]),
+   ("size#0", lockedRead [("size", "_queue", "_mutex", "")]), ("empty#0", lockedRead [("empty", "_queue", "_mutex", "")]),
+   ("full#0", lockedRead [("size", "_queue", "_mutex", ""), ("read", "_maxSize", "_mutex", "")]),
+   ("capacity#0", [("read", "_maxSize", "", "")]),
+   ("~BlockingQueue#0", [("call", "close", "", "")])]
 
 def isWait (k : String) : Bool := k == "wait" || k == "wait_for" || k == "wait_until"
 def isNotify (k : String) : Bool := k == "notify_one" || k == "notify_all"
 
-/-- a later notify on `cv` exists in the rest of the method -/
-def notifiedLater (cv : String) (all : Bool) (rest : List (String × String × String)) : Bool :=
-  rest.any (fun e => e.2.1 == cv && (if all then e.1 == "notify_all" else isNotify e.1))
+def isQueueRead (k : String) : Bool := k == "size" || k == "empty" || k == "front"
 
-def disciplinedEvents : List (String × String × String) → Bool
+/-- a later UNCONDITIONAL (function-level) notify on `cv` exists in the rest of the method -/
+def notifiedLater (cv : String) (all : Bool) (rest : List Ev) : Bool :=
+  rest.any (fun e => e.2.1 == cv && e.2.2.2 == "" && (if all then e.1 == "notify_all" else isNotify e.1))
+
+def disciplinedEvents : List Ev → Bool
   | [] => true
-  | (k, o, held) :: rest =>
+  | (k, o, held, g) :: rest =>
     (if k == "write" || k == "push" || k == "pop" then held == "_mutex" else true) &&
-    (if k == "read" && o == "_queue" then held == "_mutex" else true) &&
-    (if isWait k then held == "_mutex" else true) &&
+    (if isQueueRead k && o == "_queue" then held == "_mutex" else true) &&
+    (if isWait k then held == "_mutex" && g == "" else true) &&
+    (if k == "push" || k == "pop" || isNotify k then g == "" else true) &&
     (if k == "push" then notifiedLater "_condNotEmpty" false rest else true) &&
     (if k == "pop" then notifiedLater "_condNotFull" false rest else true) &&
     (if k == "write" && o == "_closed" then
@@ -65,7 +82,8 @@ def disciplinedEvents : List (String × String × String) → Bool
 
 /-- every write to a variable read by a wait predicate (`_queue`, `_closed`) happens while holding the waiters' mutex and is
 followed by a notify of the condition variable whose predicate it can make true; every wait holds the mutex; every access
-to the (non-atomic) deque is under the mutex -/
+to the (non-atomic) deque is under the mutex; pushes, pops, waits and notifies are not nested in any `if`/loop (a notify that
+depends on a condition - `if (n == _maxSize) notify` - is rejected here) -/
 def disciplined (sk : Skel) : Bool := sk.all (fun m => disciplinedEvents m.2)
 
 end Iora.BQ
